@@ -249,10 +249,10 @@ def dep_closure(rel):
             continue
         seen.append(r)
         txt = strip_coq_comments(open(os.path.join(COQ, r)).read())
-        for m in re.finditer(r"From\s+Verif\s+Require\s+(?:Import|Export)?\s*([^.]*(?:\.[A-Za-z_][^.\s]*)*)\s*\.", txt):
+        for m in re.finditer(r"From\s+Verif\s+Require\s+(?:Import\s+|Export\s+)?(.*?)\.(?:\s|$)", txt, re.S):
             for mod in m.group(1).split():
                 todo.append(mod.replace(".", "/") + ".v")
-        for m in re.finditer(r"Require\s+(?:Import|Export)?\s+((?:Verif\.[A-Za-z_0-9.]+\s*)+)\.", txt):
+        for m in re.finditer(r"(?<!Verif\s)Require\s+(?:Import\s+|Export\s+)?((?:Verif\.[A-Za-z_0-9.']+\s*)+?)\.(?:\s|$)", txt, re.S):
             for mod in m.group(1).split():
                 todo.append(mod[len("Verif."):].replace(".", "/") + ".v")
     return seen
